@@ -111,6 +111,7 @@ type OpObs struct {
 	Seen []string  `json:"seen"`           // "<Go type>|<fmt %v>" of every primary key handed to keyer / primaryQuery
 	Dump []Entry   `json:"dump"`           // world 0
 	More [][]Entry `json:"more,omitempty"` // worlds 1.. (cases with worlds)
+	Dn   *int      `json:"dn,omitempty"`   // ctx ops, points g / s / d: the node whose command was on the wire when the context ended
 }
 
 type Out struct {
@@ -885,6 +886,8 @@ func runSeq(c Case) Out {
 		//   g : while the first GET is on the wire     s : while the first SET is on the wire     d : ... the first DEL
 		// and a cause (0: cancelled, 1: past its deadline).  Always through the ...Ctx methods of sqlc.
 		var mctx *manualCtx
+		var dieNode atomic.Int32
+		dieNode.Store(-1)
 		errv0 := db.errv
 		if strings.HasSuffix(kind, "ctx") {
 			kind = kind[:len(kind)-3]
@@ -904,10 +907,12 @@ func runSeq(c Case) Out {
 				db.onQuery = func() error { mctx.kill(cause); return cause }
 			case "g", "s", "d":
 				for n := 0; n < wd.nodes; n++ {
+					node := int32(n)
 					servers[base+n].Server().SetPreHook(func(_ *server.Peer, cmd string, _ ...string) bool {
 						cmd = strings.ToUpper(cmd)
 						if (point == "g" && cmd == "GET") || (point == "d" && cmd == "DEL") ||
 							(point == "s" && (cmd == "SET" || cmd == "SETEX" || cmd == "SETNX")) {
+							dieNode.CompareAndSwap(-1, node)
 							mctx.kill(cause)
 						}
 						return false
@@ -1090,6 +1095,15 @@ func runSeq(c Case) Out {
 		o.R = classify(err, db.errv)
 		if mctx != nil {
 			db.errv = errv0
+			// commands refused under the ended context (deadline) count as failures of the client's
+			// circuit breaker: follow them with accepted ones
+			for n := 0; n < wd.nodes; n++ {
+				if !closed[wd.base+n] && !faulted[wd.base+n] {
+					for i := 0; i < 4; i++ {
+						padder(wd.base+n).ExistsCtx(context.Background(), "verif-pad")
+					}
+				}
+			}
 		}
 		if isRead && err == nil {
 			r := extract(row)
@@ -1097,6 +1111,9 @@ func runSeq(c Case) Out {
 		}
 		o.QI, o.QP = db.qi, db.qp
 		o.Seen = append([]string{}, db.seen...)
+		if dn := int(dieNode.Load()); dn >= 0 {
+			o.Dn = &dn
+		}
 		base = 0
 		o.Dump = dump(worlds[0].nodes)
 		for _, x := range worlds[1:] {
